@@ -233,3 +233,6 @@ b("tensordict-tables-jacobians-no-dict-check", ["C14"], "@seed", _os.path.join(_
 # graph walk that classifies nodes when they are discovered (see seeded_keep/C12-r7K1): the twin whose roots are scheduled unclassified
 k("walker-roots-not-classified", ["C12"], "@seed", _os.path.join(_PD, "walker-roots-not-classified.diff"), "", "roots are grad_fn nodes of non-leaf tensors, never leaf accumulators: scheduling them unclassified changes nothing")
 b("walker-children-not-classified", ["C12"], "@seed", _os.path.join(_PD, "walker-children-not-classified.diff"), "", "leaf accumulators are scheduled, popped and never collected")
+# PCGrad with the products <g_i^PC, g_j> kept up to date instead of recomputed (see seeded_keep/C18-r8K1): twins that break the invariant P == G @ w
+b("pcgrad-maintained-products-wrong-row", ["C18"], "@seed", _os.path.join(_PD, "pcgrad-maintained-products-wrong-row.diff"), "", "the bookkeeping subtracts row i instead of row j: later conflict tests read stale products")
+b("pcgrad-maintained-products-wrong-start", ["C18"], "@seed", _os.path.join(_PD, "pcgrad-maintained-products-wrong-start.diff"), "", "the products start from |G[i]|: conflicts with the original row are never seen")
